@@ -34,18 +34,23 @@ def line_trace(run, wd, module, nlines, timeout=3000, shards=16, chunk_bytes=48 
     trace = os.path.join(wd, "trace.ndjson")
     bad = _line_trace_all(run, wd, module, nlines, timeout, chunk_bytes, chunk_lines, trace)
     if nlines > 0 and os.path.exists(trace):
-        binding_selftest(run, wd, module, trace, timeout)
+        binding_selftest(run, wd, module, trace, timeout, exclude=bad)
     return bad
 
 
-def binding_selftest(run, wd, module, trace, timeout):
-    """DESIGN 0.6: a few lines of the accepted trace with one observed field changed must all be rejected"""
+def binding_selftest(run, wd, module, trace, timeout, exclude=()):
+    """DESIGN 0.6: a few ACCEPTED lines of the trace with one observed field changed must all be rejected.  Lines the
+    specification rejected (exclude: 1-based numbers) are not used: corrupting a wrong observation may make it right.  When the
+    trace has rejected lines the verdict of the check is a violation anyway and a failing self-test is only recorded."""
     import binding
+    excl = set(exclude)
     with open(trace, "rb") as f:
-        raw = []
+        raw, n = [], 0
         for ln in f:
             if ln.strip():
-                raw.append(ln)
+                n += 1
+                if n not in excl:
+                    raw.append(ln)
             if len(raw) >= 40000:
                 break
     lines = binding.corrupted_sample(module, raw, run.seed)
@@ -64,7 +69,7 @@ def binding_selftest(run, wd, module, trace, timeout):
     finally:
         os.replace(keep, trace)
     run.extra.setdefault("binding_selftest", {})[module] = {"corrupted_lines": len(lines), "rejected": len(rejected)}
-    if len(rejected) != len(lines):
+    if len(rejected) != len(lines) and not excl:
         missing = [i for i in range(1, len(lines) + 1) if i not in rejected]
         raise vlib.Inconclusive("binding self-test: %s accepted %d of %d lines whose observation was corrupted (first: %s)"
                                 % (module, len(missing), len(lines), lines[missing[0] - 1][:600]))
